@@ -260,7 +260,7 @@ func (sw *SlidingWindow) Add(data any) {
 		if sw.config.AllowedLateness > 0 {
 			var slots []*types.TimeSlot
 			for _, info := range sw.triggeredWindows {
-				if info.slot.Contains(eventTime) {
+				if info.slot.Contains(eventTime) && sw.stillOpenForLateData(info) {
 					slots = append(slots, info.slot)
 				}
 			}
@@ -280,7 +280,7 @@ func (sw *SlidingWindow) Add(data any) {
 		case sw.config.AllowedLateness > 0:
 			placed := false
 			for _, info := range sw.triggeredWindows {
-				if info.slot.Contains(eventTime) {
+				if info.slot.Contains(eventTime) && sw.stillOpenForLateData(info) {
 					sw.handleLateData(eventTime, sw.config.AllowedLateness)
 					placed = true
 					break
@@ -883,7 +883,7 @@ func (sw *SlidingWindow) getWindowKey(endTime time.Time) string {
 func (sw *SlidingWindow) handleLateData(eventTime time.Time, allowedLateness time.Duration) {
 	// Find which triggered window this late data belongs to
 	for _, info := range sw.triggeredWindows {
-		if info.slot.Contains(eventTime) {
+		if info.slot.Contains(eventTime) && sw.stillOpenForLateData(info) {
 			// This late data belongs to a triggered window that's still open
 			// Trigger window again with updated data (late update)
 			sw.triggerLateUpdateLocked(info.slot)
@@ -1001,4 +1001,16 @@ func (sw *SlidingWindow) closeExpiredWindows(watermarkTime time.Time) {
 			delete(sw.triggeredWindows, key)
 		}
 	}
+}
+
+// stillOpenForLateData reports whether a fired window still accepts late updates: the
+// current watermark has not reached window end + ALLOWEDLATENESS. closeExpiredWindows
+// removes expired entries only when the trigger goroutine processes a watermark; when
+// that goroutine lags behind the ingest path, an entry can outlive its allowance, and a
+// row older than watermark - ALLOWEDLATENESS must not re-open it.
+func (sw *SlidingWindow) stillOpenForLateData(info *triggeredWindowInfo) bool {
+	if sw.watermark == nil {
+		return true
+	}
+	return sw.watermark.GetCurrentWatermark().Before(info.closeTime)
 }
